@@ -356,7 +356,7 @@ class Check(common.Check):
         'emitted_conforms', 'embedL_pairs', 'bind_one_bundle_in_order', 'unbound_sends_each',
         'bind_nested_appends', 'bind_raises_sends_nothing', 'bind_preserves_issue_order', 'sync_flushes_everything',
         'synth_create_uses_own_id', 'group_create_uses_own_id', 'next_node_id_is_allocator_id',
-        'buffer_create_uses_own_id', 'consecutive_create_uses_own_ids',
+        'buffer_create_uses_own_id', 'consecutive_create_uses_own_ids', 'consecutive_explicit_uses_given_ids',
         'buffer_free_once_and_returns_id', 'buffer_double_free_silent', 'free_all_frees_every_id_once',
         'node_cmds_use_object_id', 'buffer_cmds_use_object_bufnum', 'bus_cmds_use_object_index',
         'corewf_step', 'corewf_init', 'add_actions_table_ok')]
@@ -588,7 +588,7 @@ class Check(common.Check):
             elif r < w[0] + w[1] + w[2]:                   # ---- buffers
                 k = rng.random()
                 if k < 0.35 or not st['buf']:
-                    kind = rng.choice(['buf', 'buf', 'buf', 'bufcons', 'bufcons', 'bufna', 'bufx'])
+                    kind = rng.choice(['buf', 'buf', 'buf', 'bufcons', 'bufcons', 'bufna', 'bufx', 'bufconsx'])
                     fr, ch = f'i{rng.choice([8, 64, 1024])}', f'i{rng.randint(1, 2)}'
                     if kind == 'buf':
                         ops.append(f'buf {fr} {ch} {self.gen_completion(rng)}'); st['buf'] += 1
@@ -596,6 +596,12 @@ class Check(common.Check):
                         ops.append(f'bufx {fr} {ch} i{rng.randint(0, 50)} {self.gen_completion(rng)}'); st['buf'] += 1
                     elif kind == 'bufna':
                         ops.append(f'bufna {fr} {ch}'); st['buf'] += 1
+                    elif kind == 'bufconsx':
+                        n = rng.randint(1, 4)
+                        ops.append(f'bufconsx i{n} {fr} {ch} i{rng.randint(0, 60)} {rng.choice(["N", "N", "K"])}')
+                        st['buf'] += n
+                        if rng.random() < 0.5:
+                            ops.append('bfreeall')
                     else:
                         n = rng.randint(1, 4)
                         ops.append(f'bufcons i{n} {fr} {ch} {rng.choice(["N", "N", "K"])}'); st['buf'] += n
@@ -643,8 +649,37 @@ class Check(common.Check):
                 'latency': rng.choice(['1/4', '1/8', '0', None]), 'buffers': rng.choice([64, 1024])}
         return {'opts': opts, 'ops': ops}
 
+    def gen_big(self, rng):
+        """a bind block larger than one UDP datagram (65504 bytes): thousands of small commands, or a few
+        commands of about 10 KiB each; compared with the unbound twin by the oracle (clumping is C06's model)"""
+        ops = ['group N shead', 'synth default n0 shead N', 'cbus i4', 'bind']
+        if rng.random() < 0.6:
+            for _ in range(rng.randint(1700, 2600)):
+                k = rng.random()
+                if k < 0.7:
+                    ops.append(f'set n1 sfreq i{rng.randint(0, 999)} samp i{rng.randint(0, 9)}')
+                elif k < 0.85:
+                    ops.append(f'run n1 {rng.choice("TF")}')
+                else:
+                    ops.append(f'cset b0 i{rng.randint(0, 9)} i{rng.randint(0, 9)}')
+        else:
+            for _ in range(rng.randint(8, 14)):
+                m = rng.randint(1800, 2600)
+                ops.append('csetn b0 ( ' + ' '.join(f'i{rng.randint(0, 9)}' for _ in range(m)) + ' )')
+                if rng.random() < 0.5:
+                    ops.append(f'set n1 sfreq i{rng.randint(0, 999)}')
+        if rng.random() < 0.3:
+            ops.insert(rng.randint(5, len(ops)), 'sync')
+        ops.append('end')
+        ops.append('trace n1')
+        return {'opts': {'client_id': 0, 'max_logins': 4, 'latency': rng.choice(['1/4', None]), 'buffers': 64},
+                'ops': ops, 'big': True}
+
     def gen(self, rng, n):
-        return [self.gen_case(rng) for _ in range(n)]
+        cases = [self.gen_case(rng) for _ in range(n)]
+        for _ in range(max(2, n // 150)):
+            cases.append(self.gen_big(rng))
+        return cases
 
     # ---- runners ---------------------------------------------------------------------------
     def impl(self, cases):
@@ -684,6 +719,8 @@ class Check(common.Check):
         return res
 
     def compare(self, case, impl_out, model_out):
+        if case.get('big'):
+            return None          # blocks above the datagram size are clumped (C06 model): oracle only
         if common.canon(impl_out['wire']) == common.canon(model_out):
             return None
         for i, (a, b) in enumerate(zip(impl_out['wire'], model_out)):
@@ -713,6 +750,17 @@ class Check(common.Check):
         nl = case['opts'].get('max_logins', 1)
         return {(2 ** 25 - 1) * c + 1 for c in range(nl)}
 
+    @staticmethod
+    def clumped_ok(pk, msgs, lat):
+        """a block above the datagram size goes out as successive bundles: every packet a bundle the
+        encoder accepts within the size limit (else it is an 'E' packet), first at the latency, and the
+        concatenation of their elements is exactly the issued messages, in order"""
+        if len(pk) < 2 or any(k != 'B' for k, _, _ in pk):
+            return False
+        if pk[0][1] != lat and not (lat != 'N' and pk[0][1] != 'N'):
+            return False
+        return [m for _, _, ms in pk for m in ms] == msgs
+
     NODE_ID_POS = {'/s_new': [1, 3], '/n_set': [0], '/n_setn': [0], '/n_fill': [0], '/n_map': [0], '/n_mapa': [0],
                    '/n_mapn': [0], '/n_mapan': [0], '/n_trace': [0], '/n_query': [0], '/s_get': [0],
                    '/s_getn': [0], '/g_freeAll': [0], '/g_deepFree': [0], '/n_free': [0]}
@@ -741,6 +789,7 @@ class Check(common.Check):
         handles_buf = []           # bufnum per buffer handle (None after free)
         handles_bus = []           # (audio?, index, channels) per bus handle (None after free)
         handles_node = []          # node id per node handle
+        alloc_owned = set()        # buffer numbers taken from the allocator by a Buffer and not yet given back
         blocks = []                # used blocks of the buffer allocator (from the status suffix)
         depth, block_msgs, aligned = 0, [], len(W) == len(T)
 
@@ -888,8 +937,13 @@ class Check(common.Check):
             own_before = {h for h in handles_buf if h is not None}
             if newblocks is not None:
                 blocks = newblocks
+                if op == 'bfree':       # numbers the allocator gave up are no longer owned
+                    alloc_owned = {x for x in alloc_owned if in_blocks(x, blocks)}
+            if op in ('bufx', 'bufconsx') and newblocks is not None and newblocks != before:
+                return {'what': f'op #{i} `{line}`: user-managed buffer numbers, yet the allocator went from '
+                                f'{before} to {newblocks}', 'signature': 'buffer:explicit-consumes', 'index': i}
             mbuf = re.match(r'ok u([\d,]+)', tst)
-            if mbuf and op in ('buf', 'bufx', 'bufna', 'bufcons'):
+            if mbuf and op in ('buf', 'bufx', 'bufna', 'bufcons', 'bufconsx'):
                 ids = [int(x) for x in mbuf.group(1).split(',')]
                 handles_buf.extend(ids)
                 if op != 'bufna':
@@ -897,7 +951,9 @@ class Check(common.Check):
                     if [g[:2] for g in got] != [['/b_alloc', f'i{x}'] for x in ids]:
                         return {'what': f'op #{i} `{line}` owns buffer ids {ids} but emitted {tmsgs}',
                                 'signature': f'create:{op}', 'index': i}
-                if op != 'bufx' and not all(in_blocks(x, blocks) for x in ids):
+                if op in ('buf', 'bufna', 'bufcons'):
+                    alloc_owned.update(ids)
+                if op not in ('bufx', 'bufconsx') and not all(in_blocks(x, blocks) for x in ids):
                     return {'what': f'op #{i} `{line}`: ids {ids} are not held by the allocator {blocks}',
                             'signature': 'buffer:alloc-ledger', 'index': i}
                 if ids != list(range(ids[0], ids[0] + len(ids))):
@@ -925,6 +981,11 @@ class Check(common.Check):
                 owned = sorted(x for a, n in before for x in range(a, a + n))
                 freed = sorted(int(split_tokens(m)[1][1:]) for m in tmsgs if m.startswith('/b_free')
                                and is_int(split_tokens(m)[1]))
+                if not set(freed) <= alloc_owned:
+                    return {'what': f'op #{i} `{line}`: /b_free sent for {sorted(set(freed) - alloc_owned)}, numbers no '
+                                    f'live Buffer took from the allocator (live: {sorted(alloc_owned)})',
+                            'signature': 'free_all:bogus', 'index': i}
+                alloc_owned.clear()
                 if freed != owned or len(tmsgs) != len(owned):
                     return {'what': f'op #{i} `{line}`: the allocator held ids {owned}, /b_free was sent for {freed}',
                             'signature': 'free_all:ids', 'index': i}
@@ -932,7 +993,7 @@ class Check(common.Check):
                     return {'what': f'op #{i} `{line}`: allocator still holds {blocks}', 'signature': 'free_all:returned'}
                 if len([k for k in tpk if k[0] in ('M', 'B')]) > 1:
                     return {'what': f'op #{i} `{line}`: sent as {len(tpk)} packets', 'signature': 'free_all:packets'}
-            if op.startswith('b') and op not in ('bind', 'busfree', 'bufx', 'bcopy') and tst.startswith('ok'):
+            if op.startswith('b') and op not in ('bind', 'busfree', 'bufx', 'bufconsx', 'bcopy') and tst.startswith('ok'):
                 for m in tmsgs:
                     ts = split_tokens(m)
                     if ts[0].startswith('/b_') and is_int(ts[1]):
@@ -957,7 +1018,8 @@ class Check(common.Check):
                     continue
                 if depth > 0:
                     want = ([('B', lat, block_msgs)] if block_msgs else []) + [('S', None, [])]
-                    if pk != want:
+                    clumped = self.clumped_ok(pk[:-1], block_msgs, lat) if pk and pk[-1] == ('S', None, []) else False
+                    if pk != want and not clumped:
                         return {'what': f'op #{i}: sync inside a bind block after {block_msgs} were issued '
                                         f'(unbound twin); the wire got {pk}, expected one bundle at latency {lat} '
                                         f'with exactly these messages in this order, then the sync',
@@ -975,9 +1037,22 @@ class Check(common.Check):
                                     'signature': 'bind:leak', 'index': i}
                     else:
                         want = [('B', lat, block_msgs)] if block_msgs else []
-                        if pk != want:
-                            return {'what': f'op #{i}: the bind block issued {block_msgs} (unbound twin); on exit the '
-                                            f'wire got {pk}, expected one bundle at latency {lat} with exactly these '
+                        if pk != want and not self.clumped_ok(pk, block_msgs, lat):
+                            got = [m for k, _, ms in pk if k == 'B' for m in ms]
+                            if len(block_msgs) > 12:
+                                k = next((j for j, (a, b) in enumerate(zip(block_msgs, got)) if a != b),
+                                         min(len(block_msgs), len(got)))
+                                return {'what': f'op #{i}: the bind block issued {len(block_msgs)} messages (unbound '
+                                                f'twin); on exit the wire got {len(pk)} packets with {len(got)} messages; '
+                                                f'first difference at message #{k}: issued '
+                                                f'`{(block_msgs[k] if k < len(block_msgs) else None) and block_msgs[k][:80]}`, '
+                                                f'sent `{(got[k] if k < len(got) else None) and got[k][:80]}`; every issued '
+                                                f'message must be sent once, in order, in bundles within the datagram size',
+                                        'signature': 'bind:bundle', 'index': i}
+                            short = lambda ms: [m if len(m) <= 90 else m[:90] + '…' for m in ms]
+                            return {'what': f'op #{i}: the bind block issued {short(block_msgs)} (unbound twin); on exit the '
+                                            f'wire got {[(k, t, short(ms)) for k, t, ms in pk]}, expected one bundle at latency {lat} '
+                                            f'(or, above the datagram size, successive bundles) with exactly these '
                                             f'messages in this order', 'signature': 'bind:bundle', 'index': i}
                 elif st.startswith(('raised', 'exc')):
                     depth = 0
